@@ -938,4 +938,70 @@ theorem normPath_normal (p : Str) : NormalForm Gen.pathChars (normPath true p) :
     rw [this]
     exact normalForm_nil _
 
+/-! ## host lower-casing -/
+
+theorem mapM_ok {α β : Type} (f : α → Except Exc β) (l : List α) (ls : List β)
+    (h : l.mapM f = .ok ls) : ∀ y ∈ ls, ∃ x ∈ l, f x = .ok y := by
+  induction l generalizing ls with
+  | nil => simp [pure, Except.pure] at h; subst h; simp
+  | cons x r ih =>
+    rw [List.mapM_cons] at h
+    obtain ⟨b, hb, h2⟩ := bind_ok h
+    obtain ⟨bs, hbs, h3⟩ := bind_ok h2
+    simp only [pure, Except.pure, Except.ok.injEq] at h3
+    subst h3
+    intro y hy
+    simp only [List.mem_cons] at hy
+    rcases hy with rfl | hy
+    · exact ⟨x, List.mem_cons_self .., hb⟩
+    · obtain ⟨z, hz, hf⟩ := ih bs hbs y hy
+      exact ⟨z, List.mem_cons_of_mem _ hz, hf⟩
+
+theorem lower_joinWith (sep : Str) (l : List Str) :
+    lower (joinWith sep l) = joinWith (lower sep) (l.map lower) := by
+  induction l with
+  | nil => rfl
+  | cons x r ih =>
+    cases r with
+    | nil => simp [joinWith]
+    | cons y t => simp only [joinWith, lower_append, List.map_cons] at ih ⊢; rw [ih]
+
+theorem idnaEncode_lower {idna : Str → Option Str} (hc : ∀ l r, idna l = some r → lower r = r)
+    {l y : Str} (h : idnaEncode idna l = .ok y) : lower y = y := by
+  unfold idnaEncode at h
+  split at h
+  · simp only [Except.ok.injEq] at h; subst h; exact lower_idem l
+  · split at h
+    · rename_i r hr
+      simp only [Except.ok.injEq] at h; subst h; exact hc _ _ hr
+    · simp at h
+
+theorem normalizeHost_lower {idna : Str → Option Str} (hc : ∀ l r, idna l = some r → lower r = r)
+    (h : Str) (sc : Option Str) (hs : Gen.normalizableSchemes.contains sc = true)
+    (h4 : ipv4Match h = false)
+    (hz : ipv6AddrzMatch h = true → h.dropWhile (· != 37) = [])
+    (h' : Str) (hh : normalizeHost idna (some h) sc = .ok (some h')) : lower h' = h' := by
+  unfold normalizeHost at hh
+  simp only [hs, if_true] at hh
+  split at hh
+  · simp only [Except.ok.injEq, Option.some.injEq] at hh; subst hh
+    rename_i he
+    have : h = [] := by simpa using he
+    subst this; rfl
+  · split at hh
+    · rename_i h6
+      have := hz h6
+      simp only [this, List.isEmpty_nil, if_true, Except.ok.injEq, Option.some.injEq] at hh
+      subst hh; exact lower_idem h
+    · simp only [h4, Bool.false_eq_true, if_false] at hh
+      obtain ⟨ls, hls, h2⟩ := bind_ok hh
+      simp only [Except.ok.injEq, Option.some.injEq] at h2
+      subst h2
+      rw [lower_joinWith]
+      have hl : ∀ y ∈ ls, lower y = id y := fun y hy => by
+        obtain ⟨x, _, hx⟩ := mapM_ok _ _ _ hls y hy
+        exact idnaEncode_lower hc hx
+      rw [List.map_congr_left hl, List.map_id]
+      rfl
+
 end U3.Url
